@@ -62,5 +62,7 @@ Base == [rec |-> "archive", a |-> a, layout |-> Layout(a), scan |-> Scan(a)]
 EmitScan  == stage = 1 => PrintT(ToJson(Base))
 EmitIdx   == stage = 1 => PrintT(ToJson(Base @@ [idx |-> IdxAnswers(a)]))
 EmitRo    == stage = 1 => PrintT(ToJson(Base @@ [ro |-> RoAnswers(a)]))
-EmitStats == stage = 1 => PrintT(ToJson(Base @@ [stats |-> Stats(a)]))
+(* does every block hash to its CID under a hash function that can be computed? (full validation succeeds iff so) *)
+Verifies(x) == \A i \in 1..Len(x.secs) : Blk[x.secs[i]].valid
+EmitStats == stage = 1 => PrintT(ToJson(Base @@ [stats |-> Stats(a), verifies |-> Verifies(a)]))
 =============================================================================
